@@ -586,6 +586,19 @@ def innerData {F : Type} [FloatLike F] (kind : String) (data : List String) : Li
        obs.filterMap fun | ["B", y] => (f y).map v | _ => none]
   | _ => []
 
+/-- `count F kind d extra => count-after-appends count-after-merge`: a one-observation state doubled `d` times and
+    then grown by `extra` observations holds exactly `2^d + extra` of them (the model's counter is a natural number) -/
+def bigCountOp (args : List String) : Option OpEval :=
+  match args with
+  | [_, d, extra] => do
+      let d ← parseNat? d; let extra ← parseNat? extra
+      let n := 2 ^ d + extra
+      pure { run := fun _ impl =>
+        let want := [toString n, toString n]
+        { model := want.map Tok.s,
+          prop := if impl == [want] then [] else [s!"sample-count-differs-from-the-history(expected {n})"] } }
+  | _ => none
+
 /-- `prog F <kind> conf <program> => q… | B | batch` -/
 def progGeneric {S : Type} {F : Type} [FloatLike F] (ops : AccOps S) (kind : String) (args : List String) :
     Option OpEval := do
@@ -721,6 +734,7 @@ def progOp09 (op ty : String) (args : List String) : Option OpEval :=
       | _, _ => none
     | [] => none
   | "par" => parOp args
+  | "count" => bigCountOp args
   | _ => none
 
 end StatsCI.Driver
